@@ -193,9 +193,24 @@ def constructed_variants(fn, enum_variants):
     return out
 
 
+def rule_always_desugared(ctx, R):
+    """whatever was parsed is desugared before it is handed on: the call is not under any condition on the program"""
+    LIBF = "parser/src/lib.rs"
+    n = 0
+    for q, f in fns_in_file(LIBF):
+        for c in walk(f["body"]):
+            if c["k"] == "Call" and c["func"]["k"] == "Path" and last(c["func"]["path"]) == "remove_syntactic_sugar":
+                n += 1
+                conds = [x for x in (conditions_to(f["body"], c) or [])]
+                extra = [fact_str(x) for x in conds if not ((x[0] in ("arm", "iflet")) and "ParseResult::" in fact_str(x))]
+                ctx.check(R, "%s/desugaring-unconditional[%d]" % (f["name"], n), not extra, "remove_syntactic_sugar only under %s: in the other case templates reach the lifting with tuples / anonymous components" % extra, site(LIBF, c))
+    ctx.floor(R, "desugaring call sites", n, 2)
+
+
 def rule_elimination(ctx):
     R = "C18.2"
-    ctx.rule(R, "the node kinds the IR lifting panics on and the CFG lifting does not handle itself are unconstructible in the output of the template pipeline (last remover stage) and rejected by the function filter; the anonymous-component remover runs before the tuple remover")
+    ctx.rule(R, "the node kinds the IR lifting panics on and the CFG lifting does not handle itself are unconstructible in the output of the template pipeline (last remover stage) and rejected by the function filter; the anonymous-component remover runs before the tuple remover; every parsed program and library is desugared")
+    rule_always_desugared(ctx, R)
     ps = panicking_variants(IRL, r"ast::Statement")
     pe = panicking_variants(IRL, r"ast::Expression")
     ctx.table("lifting panics on", {"statements": sorted(ps), "expressions": sorted(pe)})
@@ -405,6 +420,25 @@ def rule_binding(ctx):
         ctx.check(R, "anonymous/%s-in-declaration-order" % nm, okd, "%s = %s" % (nm, render(vs[0]) if vs else "?"), site(SSR, fn))
     bad = [render(m)[:60] for m in walk(fn["body"]) if m["k"] == "MethodCall" and m["method"] in ("get_inputs", "get_outputs")]
     ctx.check(R, "anonymous/no-sorted-maps", not bad, "uses the name-sorted maps: %s" % bad, site(SSR, fn))
+    # the generated component gets a name of its own: it contains the byte offset of the call (unique per call site)
+    decls = [c_ for c_ in walk(fn["body"]) if c_["k"] == "Call" and c_["func"]["k"] == "Path" and last(c_["func"]["path"]) == "build_declaration"]
+    lets_all = {n_["pat"]["name"]: n_["init"] for n_ in walk(fn["body"]) if n_["k"] == "Local" and n_["pat"]["k"] == "PIdent" and n_["init"] is not None}
+    okn = bool(decls)
+    for d_ in decls:
+        nm_ = strip(d_["args"][2]) if len(d_["args"]) >= 3 else None
+        if nm_ is not None and nm_["k"] == "Path" and nm_["path"] in lets_all:
+            nm_ = lets_all[nm_["path"]]
+        def summands(e_):
+            e_ = strip(e_)
+            if e_["k"] == "Binary" and e_["op"] == "+":
+                return summands(e_["l"]) + summands(e_["r"])
+            if e_["k"] == "Macro" and e_.get("name") == "format":
+                return [{"k": "Path", "path": x} for x in re.findall(r"\{([\w.]+)", e_.get("raw", ""))] + [a_ for a_ in (e_.get("args") or [])]
+            return [e_]
+
+        parts_ = [render(strip(x)).replace(" ", "") for x in summands(nm_)] if nm_ is not None else []
+        okn = okn and any(x in ("meta.start.to_string()", "meta.start", "meta.get_start().to_string()", "meta.location.start.to_string()") for x in parts_)
+    ctx.check(R, "anonymous/fresh-name-contains-the-call-offset", okn, "two anonymous components on one line must not share a name (shadowing, merged definitions)", site(SSR, fn))
     import sgrep
     body = fn["body"]
     t = render(body).replace(" ", "")
